@@ -7,19 +7,26 @@ from .. import common, tlc
 
 
 def run_models(res, models, workers=16):
-    """models: list of (module, cfg, constants-description[, kwargs]).  A model-level
-    violation on the current tree is reported by the caller (it decides how)."""
-    out = []
-    for m in models:
-        module, cfg, desc = m[0], m[1], m[2]
-        kw = m[3] if len(m) > 3 else {}
-        r = tlc.run_model(module, cfg, workers=workers, **kw)
-        res.add_model(r, desc)
-        # vacuity: every action of the model taken at least once
+    """models: list of (module, cfg, constants-description[, kwargs]).  Run concurrently, sharing the
+    cores.  A model-level violation on the current tree is reported by the caller."""
+    from concurrent.futures import ThreadPoolExecutor
+    if not models:
+        return []
+    w = max(2, workers // len(models))
+
+    def one(m):
+        kw = dict(m[3]) if len(m) > 3 else {}
+        allow = kw.pop("allow_untaken", False)
+        r = tlc.run_model(m[0], m[1], workers=w, **kw)
         never = [a for a, (d, t) in r["coverage"].items() if t == 0 and not a.endswith("!Init")]
-        if never and not kw.get("allow_untaken"):
-            raise tlc.MachineryError("vacuous model run %s/%s: actions never taken: %s" % (module, cfg, never))
-        out.append(r)
+        if never and not allow and r["ok"]:
+            raise tlc.MachineryError("vacuous model run %s/%s: actions never taken: %s" % (m[0], m[1], never))
+        return r
+
+    with ThreadPoolExecutor(max_workers=len(models)) as ex:
+        out = list(ex.map(one, models))
+    for m, r in zip(models, out):
+        res.add_model(r, m[2])
     return out
 
 
